@@ -112,7 +112,9 @@ def gen_pattern_desc(rng, depth=0):
         if k == 'tag':
             return ['tag', rng.choice(['t', 'u']), gen_pattern_desc(rng, depth + 1)]
         return [k, gen_pattern_desc(rng, depth + 1), gen_pattern_desc(rng, depth + 1)]
-    k = rng.choice(['type', 'type', 'name', 'const', 'mtypes', 'mtypes', 'mtypes', 'wild', 're'])
+    k = rng.choice(['type', 'type', 'name', 'const', 'mtypes', 'mtypes', 'mtypes', 'wild', 're', 'inst'])
+    if k == 'inst':  # a pure AST INSTANCE as pattern (expr_context instances match each other unless ctx=True)
+        return ['inst', rng.choice(['Load', 'Store', 'Del', 'Add', 'Pass', 'And', 'Not', 'Eq'])]
     if k == 'type':
         return ['type', rng.choice(_LEAF_TYPES)]
     if k == 'name':
@@ -142,6 +144,8 @@ def build_desc(d):
         return m.M(build_desc(d[3]), **{d[1]: d[2]})
     if k == 'type':
         return getattr(ast, d[1])
+    if k == 'inst':
+        return getattr(ast, d[1])()
     if k == 'name':
         return m.MName(id=d[1])
     if k == 'const':
